@@ -365,15 +365,20 @@ CHECKS = {
             'DESIGN.md section 3, C01'),
     'C02': ('exploration',
             'Hypothesis-generated multi-session histories with sync points; '
-            'shadow-client view vs ground-truth dump, both directions',
+            'shadow-client view vs ground-truth dump, both directions; plus '
+            'generated bursts of commands really in flight together on the '
+            'threading subsystem (interleaving-independent oracles)',
             'Histories of 2-4 sessions on one mailbox including stale '
             'addresses; at generated sync points and at the end every session '
             'issues NOOP/CHECK and its {uid -> flags} view must equal a fresh '
             'probe dump (nothing stuck, nothing lost, no stale flags). '
             'Sampled, not exhaustive.',
-            'Asyncio subsystem only; sessions learn UIDs of new positions by '
-            'FETCH n:m (UID); only system flags; trusts harness/wire.py and '
-            'the probe session.',
+            'Owned schedules on the asyncio subsystem; the burst third of '
+            'the cases runs maildir on worker threads whose interleaving the '
+            'harness does not own (one-sided there: a divergence seen is a '
+            'fact, a quiet run proves nothing). Sessions learn UIDs of new '
+            'positions by FETCH n:m (UID); only system flags; trusts '
+            'harness/wire.py and the probe session.',
             'DESIGN.md section 3, C02'),
     'C20': ('exploration',
             'exhaustive schedule enumeration + Hypothesis-generated '
